@@ -77,7 +77,8 @@ def generate(rng, tier):
             files = {}
             counter = [0]
             use_sp = rng.random() < 0.4
-            prefix = "" if not use_sp else ""
+            # names with a directory part are relative names like any other: found through the search path as well
+            prefix = rng.choice(["", "", "sub/", "./", "a/b/"])
             flat_items = list(items)
             # includes inside section bodies (single sections exist since cfg_init, multi ones are created by the parse):
             # the body of a section item is split into files as well
